@@ -199,6 +199,20 @@ example : (Stmt.rule ⟨"q", [.var "X"]⟩ [.pos ⟨"p", [.var "Y", .var "X"]⟩
 -- the groups of the probabilistic clause: offsets 1, assignments 0 and 1
 example : offset exP 1 = 1 ∧ (groupInst (.prule (1/2) ⟨"p", [.var "X"]⟩ [.pos ⟨"f", [.var "X"]⟩]) 1 1).alts.map (·.2) = [2] := by
   decide
+-- hypotheses of `C01FO_choice_ids_disjoint` / `C01FO_choice_ids_bound`: the probabilistic clause (statement 1) has two
+-- assignments and one head; the probabilistic fact (statement 0) one assignment (the empty one) and one head
+example : (Stmt.prule (1/2) ⟨"p", [.var "X"]⟩ [.pos ⟨"f", [.var "X"]⟩]).isProb = true ∧
+    1 < (tuples exP.consts (Stmt.prule (1/2) ⟨"p", [.var "X"]⟩ [.pos ⟨"f", [.var "X"]⟩]).vars.length).length ∧
+    0 < (Stmt.prule (1/2) ⟨"p", [.var "X"]⟩ [.pos ⟨"f", [.var "X"]⟩]).heads.length ∧
+    cidOf (.prule (1/2) ⟨"p", [.var "X"]⟩ [.pos ⟨"f", [.var "X"]⟩]) (offset exP 1) 1 0 = 2 ∧
+    cidOf (.pf (3/10) ⟨"f", [.const "a"]⟩) (offset exP 0) 0 0 = 0 := by decide
+-- `C01FO_atomId_injective` / `C01FO_herbrand_spec`: `p(a)` is in the Herbrand base, `r(a)` and `p(c)` are not
+example : (⟨"p", ["a"]⟩ : GAtom) ∈ herbrand exP ∧ (⟨"r", ["a"]⟩ : GAtom) ∉ herbrand exP ∧
+    (⟨"p", ["c"]⟩ : GAtom) ∉ herbrand exP := by decide
+-- `C01FO_subst_spec`: the assignment `["b", "a"]` to the variables `["X", "Y"]`
+example : (Stmt.rule ⟨"q", [.var "X"]⟩ [.pos ⟨"p", [.var "Y", .var "X"]⟩]).vars.map
+    (fun v => Term.subst ((Stmt.rule ⟨"q", [.var "X"]⟩ [.pos ⟨"p", [.var "Y", .var "X"]⟩]).vars.zip ["b", "a"]) (.var v)) =
+    ["b", "a"] := by decide
 example : (SemFO.run exP).z = 3/10 ∧ (SemFO.run exP).num = [3/20, 0, 3/10] := by decide +kernel
 
 end ProbLogProofs.C01FO
